@@ -47,6 +47,7 @@ RULES = {
                "hand-written wrapper fn whose parameters are the variables it reads; flagged weaker than function extraction",
     "R-auto-helper": "a function called by contracted code but not listed in the unit is pulled in verbatim; a single "
                      "side-effect-free expression body gets `ensures r == <expr>` (R-auto-ensures), anything else no contract",
+    "R-wildparam": "a `_: T` function parameter is given a fresh unused name (Verus accepts identifier patterns only)",
     "R-self": "`Self::` in inherent-emitted trait methods left as is",
 }
 
@@ -261,6 +262,29 @@ def apply_arraypat(text, applied):
     return re.sub(r"let\s*\[([^\]]*)\]\s*=\s*([^;]*);", rep, text)
 
 
+def apply_wildparam(text, applied):
+    """`_: T` parameters (Verus wants an identifier) get a fresh, unused name"""
+    msk = mask(text)
+    m = re.search(r"\bfn\b", msk)
+    if not m:
+        return text
+    lt = msk.find("(", m.end())
+    if lt < 0:
+        return text
+    close = match_close(msk, lt)
+    sig = text[lt:close]
+    n = [0]
+
+    def sub(mm):
+        n[0] += 1
+        return "%s_vx_unused%d:" % (mm.group(1), n[0])
+    new = re.sub(r"([(,]\s*)_\s*:", sub, sig)
+    if new != sig:
+        applied.add("R-wildparam")
+        text = text[:lt] + new + text[close:]
+    return text
+
+
 def apply_shim(text, applied):
     new = re.sub(r"((?:[A-Za-z_][\w]*(?:\.[A-Za-z_]\w*)*)(?:\([^()]*\))?)\.to_le_bytes\(\)",
                  r"vx_u16_to_le_bytes(\1)", text)
@@ -473,6 +497,7 @@ def rewrite(text, kind, nopub=False):
     text = apply_attr(text, applied)
     text = apply_vis(text, kind, applied, nopub)
     if kind == "fn":
+        text = apply_wildparam(text, applied)
         text = apply_arraypat(text, applied)
         text = apply_shim(text, applied)
     return text, applied
